@@ -636,6 +636,7 @@ func run(r *core.Run) {
 		"every text goes to the strict reader; rejected => Format must fail with nil output; accepted => every configuration: typed LVal equality of strict parses, equality of my walker's tree over a re-lex (spellings, bracket kinds), comment list + anchors (unless stripping), Format(out)==out. " +
 		"After every text the configuration objects must equal their snapshots (Format does not modify the caller's *Config). " +
 		"Form space: every sequence of whole forms (head x layout x nesting) formatted one after the other with one shared *Config vs alone with a fresh one, and as one file with reused vs fresh configurations. " +
+		"Token-size boundary: one token of every kind at lengths around and beyond token.DefaultBufSize in every context: Format accepts exactly what the production reader parser.NewReader() accepts, rejected => nil output, accepted output is read back by the production reader to the same tree, idempotent. " +
 		"Non-trivial = a token sequence with an accepted rendering that carries a comment and is changed by Format; distinct by token sequence")
 	r.Assume("a comment in the gap between a prefix token (' #' #^) and its operand counts as preceding the prefix form: the parser documents that it hoists it there (hoistOperandComments); the statement's 'before the same expression' is read modulo that hoist")
 	r.Assume("comments directly before a closing bracket or EOF: presence and order only (they precede no expression)")
@@ -675,6 +676,20 @@ func run(r *core.Run) {
 		} else {
 			e.explorePrefix(name, []string{"a", "a:b", "1", `"s\t"`, "()", "(a)", "(a b)", "'a"}, base7, []int{tvNone}, []int{tvNone}, all, workers)
 		}
+		t1, a1 := sum()
+		perSpace[name] = map[string]any{"texts": t1 - t0, "accepted": a1 - a0, "wall_s": time.Since(start).Seconds(), "cpu_s": cpuSeconds() - cpu0}
+		fmt.Fprintf(os.Stderr, "c16: %s done: %d texts, %d accepted, %.0fs wall, %.0fs cpu, %d violations so far\n", name, t1-t0, a1-a0, time.Since(start).Seconds(), cpuSeconds()-cpu0, r.ViolationCount())
+	}
+	// the token-size boundary space (boundary.go)
+	if !r.Expired() {
+		t0, a0 := sum()
+		start, cpu0 := time.Now(), cpuSeconds()
+		debug.SetGCPercent(100)
+		name := "QB-token-size-boundary"
+		if r.Thorough() {
+			name = "TB-token-size-boundary"
+		}
+		e.exploreBoundary(name, all, workers)
 		t1, a1 := sum()
 		perSpace[name] = map[string]any{"texts": t1 - t0, "accepted": a1 - a0, "wall_s": time.Since(start).Seconds(), "cpu_s": cpuSeconds() - cpu0}
 		fmt.Fprintf(os.Stderr, "c16: %s done: %d texts, %d accepted, %.0fs wall, %.0fs cpu, %d violations so far\n", name, t1-t0, a1-a0, time.Since(start).Seconds(), cpuSeconds()-cpu0, r.ViolationCount())
@@ -785,6 +800,19 @@ func (e *explorer) exploreFormsTimed(name string, depth int, forms []string, wor
 }
 
 func replay(v core.Violation) (bool, string) {
+	if bc, err := core.CaseOf[boundCase](v); err == nil && bc.Kind != "" && bc.Len > 0 {
+		i := strings.Index(v.Class, "/")
+		hit := i >= 0 && replayBoundary(bc, v.Class[i+1:])
+		text := bc.text()
+		_, rerr := prodRead(text)
+		rep := fmt.Sprintf("one %s token of %d bytes in context %s (%d bytes of source); production reader: %v\n", bc.Kind, bc.Len, bc.Ctx, len(text), rerr)
+		for _, c := range cfgsFor(bc.Cfg, bc.Cfgs) {
+			out, ferr := formatter.Format([]byte(text), c.cfg)
+			_, oerr := prodRead(string(out))
+			rep += fmt.Sprintf("  Format[%s]: %d bytes, err=%v; production reader on the output: %v\n", c.name, len(out), ferr, oerr)
+		}
+		return hit, rep
+	}
 	if fc, err := core.CaseOf[formCase](v); err == nil && len(fc.Forms) > 0 {
 		i := strings.Index(v.Class, "/")
 		hit := i >= 0 && replayForms(fc, v.Class[i+1:])
